@@ -1,4 +1,5 @@
 import Glas.Props.C16
+import Glas.Props.C16Diag
 #print axioms Glas.Props.C16.glas_disciplined
 #print axioms Glas.Props.C16.glas_handlers_disciplined
 #print axioms Glas.Props.C16.serverFlags_ok
@@ -9,3 +10,11 @@ import Glas.Props.C16
 #print axioms Glas.Props.C16.glas_store_quiet
 #print axioms Glas.Props.C16.store_stable
 #print axioms Glas.Props.C16.store_unstable_without_cancel
+#print axioms Glas.Props.C16Diag.glas_diagFlags_ok
+#print axioms Glas.Props.C16Diag.settles_on_last_version
+#print axioms Glas.Props.C16Diag.shown_monotone
+#print axioms Glas.Props.C16Diag.never_wrong
+#print axioms Glas.Props.C16Diag.shown_le_version
+#print axioms Glas.Props.C16Diag.without_generation_check_regresses
+#print axioms Glas.Props.C16Diag.cancelled_empty_list_can_stay
+#print axioms Glas.Props.C16Diag.without_respawn_all_stale
